@@ -6,7 +6,7 @@
    Every theorem is stated for all token lists / all parser states, not for generated cases. *)
 From Coq Require Import List NArith ZArith Bool Permutation.
 From PM Require Import Base.Bytes Base.Outcome Gen.GenLex Model.Lexer Spec.ConfSpec Proofs.LexerLoad Proofs.ConfMap
-  Proofs.ConfMapLoad Proofs.ConfMapThm.
+  Proofs.ConfMapLoad Proofs.ConfMapThm Proofs.ConfMapText.
 Import ListNotations.
 
 (* ---- example used for non-vacuity: two devices (one hard-wired, one not), plug list, next-free, same-name, alias *)
@@ -221,15 +221,76 @@ Example C13_refuse_nonvacuous :
   site_hasline S_NO_SPEC = true /\ site_hasline S_INVALID = false.
 Proof. vm_compute. repeat split. Qed.
 
-(* ---- (* OPEN *) C13_map_of_text: one end-to-end statement from the token stream to the map,
-     forall toks c, load .. toks = Ok c ->
-       Permutation (map_of c) (spec_map hl_expand (devices of c) (ConfSpec.node_lines toks))
-   where spec_map folds ConfSpec's line rules over the node lines read off the tokens (in an accepted stream the keyword
-   `node` can only start a node line).  Proved instead: the same fact per parser state (C13_line: the new map is the old
-   map plus exactly the rule's pairs; C13_line_final: they persist to the final map; C13_refuse_propagates); missing: the
-   lemma that every other parse function consumes a token segment without the keyword `node`, which needs the
-   segment-tracking version of the sp lemmas of Proofs/LexerLoad.v.  The check's monitor computes this end-to-end reading
-   independently (props/C13.py expect) on every generated configuration. *)
+(* ---- C13_map_of_text: ONE end-to-end statement from the accepted token stream to the final map.  The map of an
+   accepted configuration is, up to order, what spec_map (Proofs/ConfMapText.v, statement side) computes from the text:
+   it reads the node lines off the tokens with ConfSpec.node_lines (in an accepted stream the keyword `node` can only
+   start a node line: Proofs/LexerSeg.v, using the source fact that `node` is not a script name) and folds ConfSpec's
+   line rules over them IN ORDER -- zip with a plug list; without one the next plug names of the device's skeleton that
+   the map built so far leaves free, or plugs named like the nodes -- each line addressed to the FIRST device of that
+   name.  spec_map's only state is the map built so far; of the devices it sees the skeleton skel_of c: name and, for a
+   device whose specification has `plug name { .. }`, those names in order (C13_skeleton).  For every token list, every
+   hostlist oracle, every environment oracle. *)
+Theorem C13_map_of_text : forall hl_expand regcomp_ok resolves is_chardev stale_erange (toks : list token) c,
+  load hl_expand regcomp_ok resolves is_chardev stale_erange toks = Ok c ->
+  Permutation (map_of c) (spec_map hl_expand (skel_of c) (node_lines toks)).
+Proof. exact map_of_text. Qed.
+Print Assumptions C13_map_of_text.
+
+(* the same from the bytes of the main file, for every file oracle (include files): conf_init = lexer + load *)
+Theorem C13_map_of_file : forall hl_expand regcomp_ok resolves is_chardev stale_erange files main c,
+  conf_init hl_expand regcomp_ok resolves is_chardev stale_erange files main = Ok c ->
+  Permutation (map_of c) (spec_map hl_expand (skel_of c) (node_lines (fst (lex_all files main)))).
+Proof. exact map_of_file. Qed.
+Print Assumptions C13_map_of_file.
+
+(* the skeleton is the specification's: a hard-wired device has the plug names of its specification, in that order *)
+Theorem C13_skeleton : forall hl_expand regcomp_ok resolves is_chardev stale_erange (toks : list token) c,
+  load hl_expand regcomp_ok resolves is_chardev stale_erange toks = Ok c -> forall d, In d (c_devs c) ->
+  fst (dev_skel d) = d_name d /\
+  (d_hardwired d = true -> exists sp, find_spec (d_spec d) (c_specs c) = Some sp /\ snd (dev_skel d) = ss_plugs sp) /\
+  (d_hardwired d = false -> snd (dev_skel d) = None).
+Proof. exact skel_from_specs. Qed.
+Print Assumptions C13_skeleton.
+
+(* corollaries over the map computed from the TEXT of any accepted configuration: one (device, plug) per node, one node
+   per (device, plug) (F34 fact GenLex.plugnames_checked, as C13_injective), its nodes are conf_nodes, every alias
+   resolves to nodes of the map, and it is not empty *)
+Theorem C13_text_map_unambiguous : forall hl_expand regcomp_ok resolves is_chardev stale_erange (toks : list token) c,
+  load hl_expand regcomp_ok resolves is_chardev stale_erange toks = Ok c ->
+  let m := spec_map hl_expand (skel_of c) (node_lines toks) in
+  NoDup (map e_node m) /\ NoDup (map devplug m) /\ Permutation (map e_node m) (c_nodes c) /\
+  (forall name hosts h, In (name, hosts) (c_aliases c) -> In h hosts -> exists d p, In (h, d, p) m) /\ m <> [].
+Proof. exact text_map_unambiguous. Qed.
+Print Assumptions C13_text_map_unambiguous.
+
+(* non-vacuity: two devices (d1 hard-wired with four plugs, d2 without), a ranged node line zipped with a ranged plug
+   list, a next-free line, a same-name line, an alias; the oracle expands the two range expressions used *)
+Definition ex_hl2 (s : text) : option (list text) :=
+  if text_eqb s (t"n[1-3]") then Some [t"n1"; t"n2"; t"n3"]
+  else if text_eqb s (t"[2-4]") then Some [t"2"; t"3"; t"4"] else ex_hl s.
+Definition ex_conf2 : text := bs "specification ""h"" { timeout 1 plug name { ""1"" ""2"" ""3"" ""4"" } script login { send ""x"" } }
+specification ""f"" { timeout 1 script login { send ""x"" } }
+device ""d1"" ""h"" ""/bin/cat |&""
+device ""d2"" ""f"" ""/bin/cat |&""
+node ""n[1-3]"" ""d1"" ""[2-4]""
+node ""c"" ""d1""
+node ""x,y"" ""d2""
+alias ""all"" ""n1,x"""%string.
+
+Example C13_map_of_text_nonvacuous :
+  let toks := fst (lex_all (fun _ => None) ex_conf2) in
+  match load ex_hl2 (fun _ _ => true) (fun _ _ => true) (fun _ => false) (fun _ => false) toks with
+  | Ok c =>
+      node_lines toks = [ (t"n[1-3]", t"d1", Some (t"[2-4]")); (t"c", t"d1", None); (t"x,y", t"d2", None) ] /\
+      skel_of c = [ (t"d1", Some [t"1"; t"2"; t"3"; t"4"]); (t"d2", None) ] /\
+      spec_map ex_hl2 (skel_of c) (node_lines toks) =
+        [ (t"n1", t"d1", t"2"); (t"n2", t"d1", t"3"); (t"n3", t"d1", t"4"); (t"c", t"d1", t"1");
+          (t"x", t"d2", t"x"); (t"y", t"d2", t"y") ] /\
+      map_of c = [ (t"c", t"d1", t"1"); (t"n1", t"d1", t"2"); (t"n2", t"d1", t"3"); (t"n3", t"d1", t"4");
+                   (t"y", t"d2", t"y"); (t"x", t"d2", t"x") ]
+  | _ => False
+  end.
+Proof. vm_compute. repeat split. Qed.
 
 (* ---- the `nodes` / `device` listings: NOT covered here (Model/Client.v reply_nodes / reply_device belong to the
    daemon cluster; the tie for this clause is the check's dump of conf_getnodes() / dev_getdevices(), see
